@@ -109,6 +109,7 @@ func runC07Case(rt *rapid.T) {
 	vs.SetLayoutSeed(layout)
 	c := &Case{Spec: spec, Layout: layout}
 	api := adapt.New(spec)
+	defer api.Release()
 	isCache := spec.IsCache()
 	m := model.New(c07Keys, vs.Epoch, adapt.EffDefault(spec), spec.CB)
 	var hist []string
